@@ -92,6 +92,21 @@ def body(rng, b: B, ind: str, is_test: bool, is_async: bool, n: list):
             b.add("%s%sfn nested_%d(opt_n: Option<i32>) {" % (ind, "async " if inner_async else "", k))
             body(rng, b, ind + "    ", is_test, inner_async, n)
             b.add("%s}" % ind)
+        elif r < 0.985:
+            # the same calls written inside the arguments of a macro invocation (println!, vec!, assert!, format!)
+            m = rng.choice(["unwrap", "unwrap", "expect", "fs", "clone-loop"])
+            if m == "unwrap":
+                b.add(rng.choice(["%sprintln!(\"{}\", opt_%d.unwrap());", "%slet mv%d = vec![opt_%d.unwrap()];", "%sassert!(opt_%d.unwrap() > 0);"]).replace("mv%d", "mv%d" % k) % (ind, k),
+                      "unwrap", macro=True, **c)
+            elif m == "expect":
+                b.add("%slet ms%d = format!(\"{}\", res_%d.expect(\"value present\"));" % (ind, k, k), "expect", macro=True, **c)
+            elif m == "fs":
+                b.add("%sprintln!(\"{:?}\", std::fs::read(\"path_%d\"));" % (ind, k), "fs", macro=True, **c)
+            else:
+                b.add("%sfor it_%d in items_%d.iter() {" % (ind, k, k))
+                b.add("%s    println!(\"{}\", it_%d.clone());" % (ind, k), "clone-loop", macro=True, **c)
+                b.add("%s    consume(it_%d);" % (ind, k))
+                b.add("%s}" % ind)
         else:
             b.add("%sconsume(plain_%d);" % (ind, k))
 
@@ -279,7 +294,10 @@ def run(ctx):
                     for k in list((exp - got).elements())[:4]:
                         p = [p for p in case["planted"] if p["line"] == k[1]][0]
                         opt = ",".join("%s=%s" % kv for kv in sorted(cfg[cmd].items()) if kv[1] is not True) or "defaults"
-                        ctx.discrepancy("missed:%s:%s:%s" % (k[0], "test-code" if p["test"] else "prod-code", "options" if cfg[cmd] else "defaults"),
+                        key = "missed:%s:%s:%s" % (k[0], "test-code" if p["test"] else "prod-code", "options" if cfg[cmd] else "defaults")
+                        if p.get("macro"):
+                            key = "missed:in-macro-arguments:%s" % k[0]  # one mechanism whatever the options
+                        ctx.discrepancy(key,
                                         "case %d line %d %r expected %s under {%s} (test=%s async=%s) - not reported" % (
                                             case["idx"], k[1], lines[k[1] - 1].strip(), k[0], opt, p["test"], p["async"]), dict(rep, expected=list(k)), files)
                     for k in list((got - exp).elements())[:4]:
